@@ -182,10 +182,11 @@ def juxtaposable(e):
 
 
 class Printer:
-    def __init__(self, wrap=None):
+    def __init__(self, wrap=None, wrap_inner=None):
         self.toks = []
         self.pending = "opt"
         self.wrap = set(wrap or ())      # node ids to put redundant parentheses around (outside words only)
+        self.wrap_inner = set(wrap_inner or ())   # described literals written `(lit) "descr"` (outside words only)
         self.wrapped = set()
 
     def tok(self, s, kind, node=None, pre=None):
@@ -220,7 +221,14 @@ class Printer:
             return
         k = e[0]
         if k == "lit":
-            self.tok(esc_lit(e[1]), "lit", nid)
+            if nid in self.wrap_inner and e[2] is not None and not insub:
+                self.tok("(", "lparen", nid)
+                self.pending = "opt"
+                self.tok(esc_lit(e[1]), "lit", nid)
+                self.need("opt")
+                self.tok(")", "rparen", nid)
+            else:
+                self.tok(esc_lit(e[1]), "lit", nid)
             if e[2] is not None:
                 self.need("opt")
                 self.tok('"' + esc_descr(e[2]) + '"', "descr", nid, pre="opt" if self.pending == "none" else None)
@@ -311,7 +319,7 @@ def assign_ids(e, nodes, ids):
     return len(nodes)
 
 
-def statements_tokens(variants, defs, assign="=", semi=True, order=None, wrap=None):
+def statements_tokens(variants, defs, assign="=", semi=True, order=None, wrap=None, wrap_inner=None):
     """variants: [(cmdname, tree)], defs: [(name, shell|'' , tree)] -> tokens, arena info"""
     nodes, ids = [], {}
     vs, ds = [], []
@@ -319,7 +327,7 @@ def statements_tokens(variants, defs, assign="=", semi=True, order=None, wrap=No
         vs.append({"name": name, "root": assign_ids(t, nodes, ids)})
     for (name, sh, t) in defs:
         ds.append({"name": name, "sh": sh, "root": assign_ids(t, nodes, ids)})
-    p = Printer(wrap)
+    p = Printer(wrap, wrap_inner)
     stm = []
     if order is None:
         order = [("v", i) for i in range(len(variants))] + [("d", i) for i in range(len(defs))]
